@@ -153,6 +153,7 @@ type uxChainData struct {
 	blocks  []*wire.MsgBlock // index = height, 0 = a base block that is never scanned
 	hashes  []chainhash.Hash
 	filters []*gcs.Filter
+	entries [][][]byte // per height: what the block's basic filter is built from
 	height  map[chainhash.Hash]int
 	txs     map[int]*wire.MsgTx
 	txID    map[chainhash.Hash]int
@@ -258,6 +259,13 @@ func uxBuildChain(desc [][]uxTx) (*uxChainData, error) {
 		cd.blocks = append(cd.blocks, blk)
 		cd.hashes = append(cd.hashes, hash)
 		cd.filters = append(cd.filters, f)
+		ent := append([][]byte{}, prevScripts...)
+		for _, tx := range blk.Transactions {
+			for _, o := range tx.TxOut {
+				ent = append(ent, o.PkScript)
+			}
+		}
+		cd.entries = append(cd.entries, ent)
 		cd.height[hash] = h
 		prev = hash
 	}
@@ -308,13 +316,13 @@ func (cd *uxChainData) project(rep *SpendReport, err error) []int {
 type uxEvent struct {
 	kind  int
 	h     int
-	truth bool
 	stack string
 }
 
 type uxRelease struct {
 	fail  bool
-	match bool
+	match bool // filter gate: serve a filter with a false positive for what is watched
+	stale bool // filter gate: "block reorged out"
 }
 
 type uxReqSt struct {
@@ -336,8 +344,8 @@ type uxEnv struct {
 	drain   int32
 	loopTop int32
 
-	pc, h    int
-	truth    bool
+	pc, h     int
+	lastMatch int32 // what BlockFilterMatches last returned: 1 match, 0 no match, -1 error
 	quit     bool
 	stopDone chan struct{}
 	reqs     []*uxReqSt
@@ -438,24 +446,61 @@ func (e *uxEnv) getBlockHash(height int64) (*chainhash.Hash, error) {
 	return &h, nil
 }
 
-func (e *uxEnv) filterMatches(ro *rescanOptions, hash *chainhash.Hash) (bool, error) {
-	h, ok := e.cd.height[*hash]
+// uxChainSrc is the ChainSource handed to the repository's blockFilterMatches.
+// That helper only calls GetCFilter; its outcome is the gate: the block's real
+// BIP158 filter, a real filter that additionally contains everything that is
+// being watched (a false positive), ErrFilterFetchFailed, or
+// headerfs.ErrHashNotFound ("block reorged out").
+type uxChainSrc struct {
+	ChainSource
+	cd    *uxChainData
+	gate  func(h int) uxRelease
+	watch func() [][]byte
+}
+
+func (c *uxChainSrc) GetCFilter(hash chainhash.Hash, _ wire.FilterType,
+	_ ...QueryOption) (*gcs.Filter, error) {
+
+	h, ok := c.cd.height[hash]
 	if !ok {
 		h = -1
 	}
-	truth := false
-	if ok {
-		m, err := matchBlockFilter(ro, e.cd.filters[h], hash)
-		if err != nil {
-			return false, err
-		}
-		truth = m
+	r := c.gate(h)
+	switch {
+	case r.fail:
+		return nil, ErrFilterFetchFailed
+	case r.stale || !ok:
+		return nil, headerfs.ErrHashNotFound
+	case r.match:
+		entries := append(append([][]byte{}, c.cd.entries[h]...), c.watch()...)
+		return builder.WithKeyHash(&hash).AddEntries(entries).Build()
 	}
-	r := e.gate(uxEvent{kind: uxFilter, h: h, truth: truth})
-	if r.fail {
-		return false, errUxInjected
+	return c.cd.filters[h], nil
+}
+
+// filterMatches is UtxoScannerConfig.BlockFilterMatches wired exactly as
+// NewChainService does (neutrino.go): the repository's blockFilterMatches over
+// a ChainSource.
+func (e *uxEnv) filterMatches(ro *rescanOptions, hash *chainhash.Hash) (bool, error) {
+	src := &uxChainSrc{cd: e.cd,
+		gate: func(h int) uxRelease { return e.gate(uxEvent{kind: uxFilter, h: h}) },
+		watch: func() [][]byte {
+			var w [][]byte
+			for _, r := range e.reqs {
+				w = append(w, uxScript(r.tx, r.idx))
+			}
+			return w
+		}}
+	matches, _, err := blockFilterMatches(src, ro, hash)
+	switch {
+	case err != nil:
+		atomic.StoreInt32(&e.lastMatch, -1)
+	case matches:
+		atomic.StoreInt32(&e.lastMatch, 1)
+	default:
+		atomic.StoreInt32(&e.lastMatch, 0)
 	}
-	return truth || r.match, nil
+	return matches, err
 }
 
 func (e *uxEnv) getBlock(hash chainhash.Hash, _ ...QueryOption) (*btcutil.Block, error) {
@@ -499,7 +544,7 @@ func (e *uxEnv) wait() string {
 				e.pc, e.h = uxIdle, 0
 				continue
 			}
-			e.pc, e.h, e.truth = ev.kind, ev.h, ev.truth
+			e.pc, e.h = ev.kind, ev.h
 			if ev.kind == uxExit && e.stopDone != nil {
 				t2 := time.NewTimer(uxBound())
 				select {
@@ -672,15 +717,17 @@ func (e *uxEnv) release(want uxAct) (uxAct, string) {
 		a.C = e.above()
 	}
 	from := e.pc
-	truth := e.truth
-	r := uxRelease{fail: want.Res == "fail", match: want.Res == "match"}
+	r := uxRelease{fail: want.Res == "fail", match: want.Res == "match",
+		stale: want.Res == "stale" && from == uxFilter}
 	e.rel <- r
 	dump := e.wait()
 	switch {
 	case r.fail:
 		a.Res = "fail"
+	case r.stale:
+		a.Res = "stale"
 	case from == uxFilter:
-		if truth || r.match {
+		if atomic.LoadInt32(&e.lastMatch) == 1 {
 			a.Res = "match"
 		} else {
 			a.Res = "nomatch"
